@@ -7,6 +7,7 @@
 package sim
 
 import (
+	"bytes"
 	"fmt"
 	"runtime/debug"
 	"sort"
@@ -63,10 +64,23 @@ type Frame struct {
 	Data    []byte `json:"data"`
 	// Injected frames did not come out of a library Send call.
 	Injected bool `json:"injected,omitempty"`
+	// The library's own transport queues the slices it is given and writes them to the socket later; it does not
+	// copy at Send time. The simulated transport does the same: Data/Topic are the snapshot taken at Send time (what
+	// every oracle calls "sent"), liveData/liveTopic are the caller's slices, read when the frame is delivered. A
+	// sender that reuses a buffer after Send therefore corrupts its own queued frames here exactly as it would there.
+	liveData, liveTopic []byte
+	snapData, snapTopic []byte // to notice frames that an interposer rewrote (those are delivered as rewritten)
 }
 
 func (f *Frame) Inc() *tss.IncMessage {
-	return &tss.IncMessage{Source: f.From, MsgType: f.MsgType, Topic: clone(f.Topic), Data: clone(f.Data)}
+	data, topic := f.Data, f.Topic
+	if f.liveData != nil && bytes.Equal(f.Data, f.snapData) {
+		data = f.liveData
+	}
+	if f.liveTopic != nil && bytes.Equal(f.Topic, f.snapTopic) {
+		topic = f.liveTopic
+	}
+	return &tss.IncMessage{Source: f.From, MsgType: f.MsgType, Topic: clone(topic), Data: clone(data)}
 }
 
 func clone(b []byte) []byte {
@@ -109,7 +123,8 @@ func (n *Net) Attach(id uint16, h Handler) { n.mu.Lock(); n.handlers[id] = h; n.
 func (n *Net) SendFunc(from uint16) func(msgType uint8, topic []byte, msg []byte, to ...uint16) {
 	return func(msgType uint8, topic []byte, msg []byte, to ...uint16) {
 		for _, dst := range to {
-			n.Enqueue(&Frame{From: from, To: dst, MsgType: msgType, Topic: clone(topic), Data: clone(msg)})
+			n.Enqueue(&Frame{From: from, To: dst, MsgType: msgType, Topic: clone(topic), Data: clone(msg),
+				liveData: msg, liveTopic: topic, snapData: clone(msg), snapTopic: clone(topic)})
 		}
 	}
 }
